@@ -4,7 +4,7 @@ CONSTANTS
   Offsets <- MCOffsets
   EmitYears <- MCAllYears
   EmitSods = {0, 86399}
-  EmitUs = {0, 999999}
+  EmitUs = {0, 1, 5000, 99999, 125000, 999999}
 INVARIANT CalendarOK
 INVARIANT OffsetsOK
 INVARIANT PackedOK
